@@ -589,6 +589,8 @@ pub struct Features {
     pub next_line_value: u32,
     pub props: u32,
     pub aliases: u32,
+    pub tab_sep: u32,
+    pub props_break: u32,
 }
 
 impl Features {
@@ -609,6 +611,8 @@ impl Features {
         add(self.multiline_flow, "multi-line-flow");
         add(self.trailing_comma, "trailing-comma");
         add(self.comments, "comment");
+        add(self.tab_sep, "tab-as-separation");
+        add(self.props_break, "line-break-after-properties-in-flow");
         add(self.blank_lines, "blank-line");
         add(self.directives, "directive");
         add(self.props_own_line, "props-on-own-line");
@@ -631,11 +635,14 @@ pub enum Site {
     /// first char of an entry line of a block collection (before its indentation)
     EntryLine { line_start: usize, indent: usize, first: bool, parent: isize },
     /// a continuation line of a multi-line flow collection; `block_n` = indentation of the enclosing block construct
-    FlowContLine { line_start: usize, indent: usize, block_n: isize },
+    /// `plain_before`: a plain scalar was written inside the (outermost) flow collection before this line
+    FlowContLine { line_start: usize, indent: usize, block_n: isize, plain_before: bool },
     /// a single-line plain scalar without properties in entry / value position of a block collection
     PlainValue { start: usize, len: usize, doc: usize },
     /// a single-line scalar without properties used as implicit key of a block mapping
     ImplicitKey { start: usize, end: usize, quoted: bool, flow_pair: bool },
+    /// an implicit key that is a flow collection: `after_open` = position just behind its `[` / `{`
+    CollectionKey { after_open: usize, map: bool, flow_pair: bool },
     DocEndMarker { pos_after: usize },
 }
 
@@ -653,11 +660,15 @@ pub struct Renderer<'a> {
     /// the previous block mapping entry was `? key` without a `:` line: an entry starting with
     /// `:` (empty implicit key) would be read as its value
     bare_question: bool,
+    /// a document marker was just written: the separation that follows may be a tab
+    after_marker: bool,
+    /// a plain scalar has been written since the outermost flow collection was opened
+    plain_in_flow: bool,
 }
 
 impl<'a> Renderer<'a> {
     pub fn new(layout: &'a [u8], rich: bool) -> Self {
-        Renderer { sites: vec![], in_implicit_block_key: false, cur_doc: 0, out: String::new(), ch: Choices::new(layout), feat: Features::default(), after_block_scalar: false, rich, bare_question: false }
+        Renderer { sites: vec![], in_implicit_block_key: false, cur_doc: 0, out: String::new(), ch: Choices::new(layout), feat: Features::default(), after_block_scalar: false, rich, bare_question: false, after_marker: false, plain_in_flow: false }
     }
 
     fn spaces(&mut self, n: usize) {
@@ -668,12 +679,41 @@ impl<'a> Renderer<'a> {
 
     /// 1..=3 spaces of in-line separation (1 in plain layout)
     fn sep(&mut self) {
+        if self.after_marker {
+            self.after_marker = false;
+            // s-separate-in-line is blanks *or tabs*: `---<TAB>node`
+            if self.rich && self.ch.pick(4) == 3 {
+                self.out.push('\t');
+                self.feat.tab_sep += 1;
+                return;
+            }
+        }
         let n = if self.rich { 1 + self.ch.pick(3) } else { 1 };
         self.spaces(n);
     }
 
+    /// separation between a node's properties and its content: in-line, or — inside a flow
+    /// collection, outside implicit keys of single pairs — a line break (s-separate-lines), after
+    /// which the content continues at `cont` or deeper
+    fn psep(&mut self, cont: usize, single_line: bool, in_flow: bool) {
+        if in_flow && !single_line && self.rich && self.ch.pick(5) == 4 {
+            self.feat.props_break += 1;
+            if self.ch.pick(4) == 3 {
+                self.out.push_str(" # pc");
+                self.feat.comments += 1;
+            }
+            self.out.push('\n');
+            let extra = self.ch.pick(3);
+            self.sites.push(Site::FlowContLine { line_start: self.out.len(), indent: cont + extra, block_n: cont as isize - 1, plain_before: self.plain_in_flow });
+            self.spaces(cont + extra);
+            return;
+        }
+        self.sep();
+    }
+
     /// end the current line: optional trailing blanks, optional comment, break
     fn eol(&mut self) {
+        self.after_marker = false;
         if self.rich {
             match self.ch.pick(8) {
                 6 => self.spaces(2),
@@ -763,7 +803,7 @@ impl<'a> Renderer<'a> {
             }
             self.out.push('\n');
             let extra = self.ch.pick(3);
-            self.sites.push(Site::FlowContLine { line_start: self.out.len(), indent: cont + extra, block_n: cont as isize - 1 });
+            self.sites.push(Site::FlowContLine { line_start: self.out.len(), indent: cont + extra, block_n: cont as isize - 1, plain_before: self.plain_in_flow });
             self.spaces(cont + extra);
             return;
         }
@@ -778,6 +818,9 @@ impl<'a> Renderer<'a> {
             _ => "",
         };
         let open = self.out.len();
+        if q.is_empty() {
+            self.plain_in_flow = true;
+        }
         self.out.push_str(q);
         for (i, l) in lines.iter().enumerate() {
             if i > 0 {
@@ -806,7 +849,7 @@ impl<'a> Renderer<'a> {
             Kind::Omitted => !self.props(n),
             Kind::Scalar { style, lines, .. } => {
                 if self.props(n) {
-                    self.sep();
+                    self.psep(cont, single_line, in_flow);
                 }
                 let lines: Vec<String> = if single_line { vec![lines.join(" ")] } else { lines.clone() };
                 // a single-line rendering of a two-line scalar keeps the same value (joined by one space)
@@ -814,8 +857,11 @@ impl<'a> Renderer<'a> {
                 false
             }
             Kind::Seq { items, .. } => {
+                if !in_flow {
+                    self.plain_in_flow = false;
+                }
                 if self.props(n) {
-                    self.sep();
+                    self.psep(cont, single_line, in_flow);
                 }
                 self.out.push('[');
                 let mut first = true;
@@ -839,8 +885,11 @@ impl<'a> Renderer<'a> {
                 false
             }
             Kind::Map { pairs, .. } => {
+                if !in_flow {
+                    self.plain_in_flow = false;
+                }
                 if self.props(n) {
-                    self.sep();
+                    self.psep(cont, single_line, in_flow);
                 }
                 self.out.push('{');
                 let mut first = true;
@@ -882,6 +931,7 @@ impl<'a> Renderer<'a> {
             // an empty entry is not allowed in a flow sequence (the generator does not produce
             // one); `~` is the spelling the omitted-node expectation accepts
             self.out.push('~');
+            self.plain_in_flow = true;
         }
     }
 
@@ -929,9 +979,15 @@ impl<'a> Renderer<'a> {
             let kstart = self.out.len();
             self.flow_node(k, cont, key_single, true);
             self.in_implicit_block_key = was;
-            if in_seq && !k.has_props() {
-                if let Kind::Scalar { style, .. } = &k.kind {
-                    self.sites.push(Site::ImplicitKey { start: kstart, end: self.out.len(), quoted: *style != Style::Plain, flow_pair: true });
+            if in_seq {
+                match &k.kind {
+                    Kind::Scalar { style, .. } => self.sites.push(Site::ImplicitKey { start: kstart, end: self.out.len(), quoted: *style != Style::Plain, flow_pair: true }),
+                    Kind::Seq { .. } | Kind::Map { .. } => {
+                        if let Some(p) = self.out[kstart..].find(['[', '{']) {
+                            self.sites.push(Site::CollectionKey { after_open: kstart + p + 1, map: matches!(k.kind, Kind::Map { .. }), flow_pair: true });
+                        }
+                    }
+                    _ => {}
                 }
             }
         }
@@ -1198,10 +1254,14 @@ impl<'a> Renderer<'a> {
             self.in_implicit_block_key = true;
             self.flow_node(key, i + 1, true, false);
             self.in_implicit_block_key = false;
-            if let Kind::Scalar { style, .. } = &key.kind {
-                if !key.has_props() {
-                    self.sites.push(Site::ImplicitKey { start: kstart, end: self.out.len(), quoted: *style != Style::Plain, flow_pair: false });
+            match &key.kind {
+                Kind::Scalar { style, .. } => self.sites.push(Site::ImplicitKey { start: kstart, end: self.out.len(), quoted: *style != Style::Plain, flow_pair: false }),
+                Kind::Seq { .. } | Kind::Map { .. } => {
+                    if let Some(p) = self.out[kstart..].find(['[', '{']) {
+                        self.sites.push(Site::CollectionKey { after_open: kstart + p + 1, map: matches!(key.kind, Kind::Map { .. }), flow_pair: false });
+                    }
                 }
+                _ => {}
             }
             let needs_blank = matches!(key.kind, Kind::Alias(_)) || (matches!(key.kind, Kind::Omitted) && key.has_props());
             if matches!(key.kind, Kind::Alias(_)) {
@@ -1249,7 +1309,9 @@ impl<'a> Renderer<'a> {
             self.after_block_scalar = false;
             if d.explicit_start {
                 self.out.push_str("---");
+                self.after_marker = true;
                 self.block_node(&d.root, -1, Intro::DocMarker);
+                self.after_marker = false;
             } else {
                 self.block_node(&d.root, -1, Intro::BareRoot);
             }
@@ -1257,7 +1319,13 @@ impl<'a> Renderer<'a> {
                 self.out.push_str("...");
                 self.sites.push(Site::DocEndMarker { pos_after: self.out.len() });
                 self.after_block_scalar = false;
-                self.eol();
+                if self.rich && self.ch.pick(8) == 7 {
+                    self.out.push_str("\t# end\n");
+                    self.feat.tab_sep += 1;
+                    self.feat.comments += 1;
+                } else {
+                    self.eol();
+                }
             }
         }
     }
